@@ -3,6 +3,7 @@ Stage E: the work-list loop of `Linearizer::linearize` on the piecewise-linear f
 complete transformation of states, and the final assembly.
 -/
 import Rooc.Proofs.LinFrag
+import Rooc.Proofs.LinSpecMin
 
 set_option linter.unusedSectionVars false
 set_option linter.unusedSimpArgs false
@@ -13,6 +14,37 @@ open Rooc Rooc.Lin Rooc.Sem Rooc.Exp
 open Rooc.Lin.Gadget (B01)
 
 variable {K : Type} [Field K] [LinearOrder K] [IsStrictOrderedRing K] [FloorRing K]
+
+/-- evaluation is strict: an expression of the fragment that has a value somewhere has finite literals only. -/
+theorem finE_of_definedE {ext : Bool} : ∀ e : Exp (Ext K), frag ext e = true → DefinedE e → FinE e := by
+  intro e
+  induction e using Exp.indL with
+  | num v => intro _ h; obtain ⟨k, rfl⟩ := h.num; simp [FinE, finiteLits, isFin]
+  | var x => intro _ _; simp [FinE, finiteLits]
+  | bin op a b iha ihb =>
+    intro hf h
+    simp only [frag, Bool.and_eq_true] at hf
+    have h1 := iha hf.1.2 h.bin_left
+    have h2 := ihb hf.2 h.bin_right
+    simp only [FinE, finiteLits, Bool.and_eq_true] at *
+    exact ⟨h1, h2⟩
+  | un op e ih =>
+    intro hf h
+    cases op with
+    | neg => simp only [frag] at hf; simpa [FinE, finiteLits] using ih hf h.neg
+    | not => simp [frag] at hf
+  | abs e ih => intro hf h; simp only [frag] at hf; simpa [FinE, finiteLits] using ih hf h.abs
+  | max es ih =>
+    intro hf h
+    simp only [frag, Bool.and_eq_true, fragList_iff] at hf
+    simp only [FinE, finiteLits]
+    exact (finiteLitsL_iff es).mpr (fun e he => ih e he (hf.2 e he) (h.max_mem e he))
+  | min es ih =>
+    intro hf h
+    simp only [frag, Bool.and_eq_true, fragList_iff] at hf
+    simp only [FinE, finiteLits]
+    exact (finiteLitsL_iff es).mpr (fun e he => ih e he (hf.2 e he) (h.min_mem e he))
+  | _ => intro hf; simp [frag] at hf
 
 /-! ### comparison normalisation on fragment expressions -/
 
@@ -194,7 +226,7 @@ theorem emit_fg {ext : Bool} {d0 : List (DomVar (Ext K))}
     obtain ⟨a, ha⟩ := hdl ρ
     obtain ⟨b, hb⟩ := hdr ρ
     exact ⟨a - b, hev ρ a b ha hb⟩
-  have A := hspec en hen.1 _ _ _ _ ⟨hinv.st, hen.2, hden⟩ hlin
+  have A := hspec en hen.1 _ _ _ _ ⟨hinv.st, hen.2, finE_of_definedE en hen.1 hden⟩ hlin
   obtain ⟨k, hk⟩ := A.cok.rhs
   set row : MidRow (Ext K) := { name := name, lhs := ctx.vars, rhs := Arith.neg ctx.rhs, cmp := cmp } with hrow
   have hrowOK : RowOK row := ⟨A.cok.fin, ⟨-k, by simp [hrow, hk]⟩, A.cok.nodup⟩
